@@ -79,7 +79,7 @@ func authProfile() chain.Profile {
 	p.HotKeys = map[string][]string{"a01": {"a11"}, "a02": {"a12"}, "a05": {"a11", "a01", "a07", "a12"}}
 	p.Weights = map[string]int{"Blocks": 14, "StoreNew": 10, "StoreUpdate": 16, "Complete": 24, "Cancel": 5, "CancelAny": 6, "Terminate": 6,
 		"Renew": 6, "Migrate": 3, "Claim": 4, "AddVstorage": 2, "RemoveVstorage": 2, "Permission": 8, "Reset": 1, "Ready": 2,
-		"StoreForeign": 8, "StoreOddBase": 6, "StoreSponsored": 6, "RenewByLastUpdater": 3}
+		"StoreForeign": 8, "StoreOddBase": 6, "StoreSponsored": 6, "RenewByLastUpdater": 2, "GranteeCycle": 8}
 	p.Adversarial = 35
 	p.MaxData = 3
 	p.Timeouts = []int64{20, 600, 3600}
@@ -179,7 +179,7 @@ func versionProfile() chain.Profile {
 	p.Gateways = []string{"a01", "a02"} // concurrent updates arrive through different gateways
 	p.MaxData = 2
 	p.Weights = map[string]int{"Blocks": 12, "StoreNew": 4, "StoreUpdate": 24, "Complete": 40, "Cancel": 3, "Terminate": 1,
-		"Renew": 12, "Migrate": 3, "Claim": 2, "Permission": 4, "RenewByLastUpdater": 3} // grantees update concurrently with the owner
+		"Renew": 12, "Migrate": 3, "Claim": 2, "Permission": 4, "RenewByLastUpdater": 2, "GranteeCycle": 10} // grantees update concurrently with the owner
 	p.Sizes = []int64{1000, 5000}
 	p.Durs = []int64{3600, 7200}
 	p.Timeouts = []int64{20, 1800}
